@@ -73,9 +73,21 @@ def judge_flags(prop, site, out, acceptable, n, extra_sig="", classify=None):
         vs.append(V(f"{prop}|{site}|{extra_sig}|symptom=length", f"{site} returned {len(vals)} flags for {n} points",
                     alpha.acc_json(acceptable), vals))
         return vs, ("len", len(vals))
-    for i in alpha.judge(vals, acceptable):
-        pc = classify(i) if classify else posclass(i, n)
-        vs.append(V(f"{prop}|{site}|{extra_sig}|at={pc}|expected={sorted(acceptable[i])}|observed={vals[i]}",
-                    f"{site}: point {i} flagged {vals[i]}, acceptable {sorted(acceptable[i])}",
-                    alpha.acc_json(acceptable), vals, size=n * 1000 + i))
+    bad = alpha.judge(vals, acceptable)
+    if bad:
+        exp_json = alpha.acc_json(acceptable) if n <= 64 else None
+        seen = set()
+        for i in bad:
+            pc = classify(i) if classify else posclass(i, n)
+            sig = f"{prop}|{site}|{extra_sig}|at={pc}|expected={sorted(acceptable[i])}|observed={vals[i]}"
+            if sig in seen:
+                continue
+            seen.add(sig)
+            if exp_json is None:  # long series: report a window around the point
+                lo, hi = max(0, i - 2), min(n, i + 3)
+                e = {"index": i, "window": [lo, hi], "acceptable": alpha.acc_json(acceptable[lo:hi])}
+                o = {"index": i, "window": [lo, hi], "flags": vals[lo:hi]}
+            else:
+                e, o = exp_json, vals
+            vs.append(V(sig, f"{site}: point {i} flagged {vals[i]}, acceptable {sorted(acceptable[i])}", e, o, size=n * 1000 + i))
     return vs, tuple(vals)
